@@ -80,8 +80,12 @@ def main():
         rc, out = sh('sh %s/run.sh' % os.path.relpath(mdir, wt), cwd=wt, timeout=1200)
         return rc, out[-1500:]
 
-    # 1. clean
+    # 1. clean, at the current HEAD of /repo (fixes committed since the
+    # worktree was created must not show up as violations of the mutant)
     sh('git checkout -- .', cwd=wt)
+    head = subprocess.run(['git', '-C', '/repo', 'rev-parse', 'HEAD'], stdout=subprocess.PIPE, text=True).stdout.strip()
+    sh('git checkout -q --detach %s' % head, cwd=wt)
+    meta['base_commit'] = head[:10]
     rc, out = build()
     meta['steps']['build_clean'] = rc
     rc, out = demo()
